@@ -648,7 +648,7 @@ Proof.
     pose proof (rest_adv _ _ _ R) as R3. rewrite <- Es' in R3.
     rewrite (IH f _ _ s V2 R3).
     + rewrite !adv_adv. cbn [concat]. rewrite <- !app_assoc. reflexivity.
-    + rewrite R3. rewrite H, Es', !app_length in Hf. rewrite Es', !app_length.
+    + rewrite R3, Es'. rewrite H, !app_length in Hf.
       destruct Hq as [-> | ->]; simpl in *; lia.
 Qed.
 
@@ -721,7 +721,8 @@ Proof.
   destruct (runs_mlb_complete t1 v1 (contents_mchunked _ _ A) i s1 V1 H1) as (l1 & R1 & <-).
   rewrite (bind_ok _ _ _ _ _ (chunks_runs _ _ _ _ R1)).
   pose proof (rest_adv _ _ _ H) as R. rewrite Es2 in R.
-  rewrite (bind_ok _ _ _ _ (adv t2 (adv t1 i)) (quote_loop_complete t2 v2 B _ _ _ s2 V2 R (Nat.lt_succ_diag_r _))).
+  rewrite (bind_ok (fun j => mlb_quote_loop (S (length (rest j))) (concat l1) j) _ (adv t1 i) _ (adv t2 (adv t1 i))
+             (quote_loop_complete t2 v2 B _ _ _ s2 V2 R (Nat.lt_succ_diag_r _))).
   pose proof (rest_adv _ _ _ R) as R3. rewrite <- Es2 in R3. unfold ret.
   destruct C as [-> | [-> | ->]]; cbn [app] in R3.
   - rewrite (bind_ok _ _ _ _ _ (opt_fails _ _ (quotes2_delim_0 x22 _ s eq_refl R3 Hs))).
